@@ -2,6 +2,8 @@
 // substitutes for the real (non-interpretable) implementation.
 package models
 
+import "context"
+
 type strErr struct{ s string }
 
 func (e *strErr) Error() string { return e.s }
@@ -54,3 +56,43 @@ func ErrsError(e interface {
 	}
 	return out
 }
+
+// ---- context ----
+
+type valueCtx struct {
+	context.Context
+	key, val interface{}
+}
+
+func (c *valueCtx) Value(key interface{}) interface{} {
+	if c.key == key {
+		return c.val
+	}
+	return c.Context.Value(key)
+}
+
+// WithValue models context.WithValue (without the reflect-based comparability check).
+func WithValue(parent context.Context, key, val interface{}) context.Context {
+	return &valueCtx{parent, key, val}
+}
+
+// ErrorsIs models errors.Is for comparable targets: identity along the Unwrap chain.
+func ErrorsIs(err, target error) bool {
+	for i := 0; i < 100 && err != nil; i++ {
+		if err == target {
+			return true
+		}
+		if x, ok := err.(interface{ Is(error) bool }); ok && x.Is(target) {
+			return true
+		}
+		u, ok := err.(interface{ Unwrap() error })
+		if !ok {
+			return false
+		}
+		err = u.Unwrap()
+	}
+	return false
+}
+
+// NotConnReset models drpcmanager.isConnectionReset for harness errors (never *net.OpError).
+func NotConnReset(err error) bool { return false }
